@@ -32,3 +32,21 @@ func (o *Operator) VerifOwnsC05(key []byte, namespace string, data []byte, t tim
 	own := o.db.VerifDataOwnershipC05()
 	return dbKey, timerKey, own.OwnsKey(dbKey), own.OwnsKey(timerKey)
 }
+
+// VerifTimerQueuesC05 reports, for a deployed operator, the key group each per-key-group timer queue of its
+// TimerStore loads from and writes to (in queue order; -1 for a queue of another type), and the position of the
+// queue a timer of the given subject key would be pushed to.
+func (o *Operator) VerifTimerQueuesC05(key []byte, t time.Time) (queueGroups []int, queueIndex int) {
+	o.mu.RLock()
+	defer o.mu.RUnlock()
+	store := o.timerRegistry.store
+	for _, p := range store.priorityQueue.VerifPartitionsC05() {
+		if q, ok := p.(*KeyGroupPriorityQueue); ok {
+			queueGroups = append(queueGroups, int(q.keyGroup))
+		} else {
+			queueGroups = append(queueGroups, -1)
+		}
+	}
+	_, timerKey := store.encodeTimerKey(key, t)
+	return queueGroups, store.priorityQueue.VerifPartitionIndexC05(timerKey)
+}
